@@ -147,6 +147,10 @@ class RecordAnalyzer:
             return Len.sym("N")
         if isinstance(e, ast.Call) and dotted(e.func) == "enumerate" and e.args:
             return self.length_of(e.args[0], st)
+        if isinstance(e, ast.Call) and dotted(e.func) == "zip" and e.args:
+            ls = [self.length_of(a, st) for a in e.args]
+            if all(l is not None for l in ls) and all(l == ls[0] for l in ls):
+                return ls[0]
         return None
 
     def value(self, e: ast.AST, st: State, per_elem_sym: Optional[str] = None) -> Optional[Len]:
@@ -232,6 +236,16 @@ class RecordAnalyzer:
             name = s.targets[0].id
             if isinstance(s.value, ast.List) and not s.value.elts:
                 st.env[name] = Vec(Len())
+            elif isinstance(s.value, ast.ListComp) and len(s.value.generators) == 1 and self.length_of(s.value.generators[0].iter, st) is not None \
+                    and not s.value.generators[0].ifs:
+                # one flag/value per element of the iterated sequence; the number of true flags is a fresh multiplicity
+                ln = self.length_of(s.value.generators[0].iter, st)
+                is_flag = isinstance(s.value.elt, (ast.Compare, ast.BoolOp, ast.UnaryOp))
+                st.env[name] = Vec(ln, trues=Len.sym(self.new_sym()) if is_flag else None)
+            elif isinstance(s.value, ast.Call) and attr_tail(s.value) == "count" and isinstance(s.value.func.value, ast.Name) \
+                    and isinstance(st.env.get(s.value.func.value.id), Vec) and s.value.args and isinstance(s.value.args[0], ast.Constant) and s.value.args[0].value is True \
+                    and st.env[s.value.func.value.id].trues is not None:
+                st.env[name] = st.env[s.value.func.value.id].trues
             else:
                 v = self.value(s.value, st)
                 st.env[name] = v if v is not None else ("opaque", norm(s.value))
@@ -375,6 +389,12 @@ class RecordAnalyzer:
         src_vec = st.env.get(src.id) if isinstance(src, ast.Name) else None
         elem_sel = src_vec.sel if isinstance(src_vec, Vec) else None
         idx = loop.target.elts[0].id if isinstance(loop.target, ast.Tuple) and isinstance(loop.target.elts[0], ast.Name) else None
+        # for flag, item in zip(vector, items): the loop variable bound to a flag vector stands for vector[i]
+        self._flagvars = {}
+        if isinstance(it, ast.Call) and dotted(it.func) == "zip" and isinstance(loop.target, ast.Tuple):
+            for t, a in zip(loop.target.elts, it.args):
+                if isinstance(t, ast.Name) and isinstance(a, ast.Name) and isinstance(st.env.get(a.id), Vec) and st.env[a.id].trues is not None:
+                    self._flagvars[t.id] = a.id
         self._loop_body(loop.body, st, L, idx, elem_sel, sel_sym=None)
         return [st]
 
@@ -390,6 +410,10 @@ class RecordAnalyzer:
                 if isinstance(t, ast.Subscript) and isinstance(t.value, ast.Name) and isinstance(st.env.get(t.value.id), Vec) \
                         and isinstance(t.slice, ast.Name) and t.slice.id == idx and st.env[t.value.id].trues is not None:
                     m_true = st.env[t.value.id].trues
+                    if len(m_true.t) == 1:
+                        new_sym = next(iter(m_true.t))
+                elif isinstance(t, ast.Name) and t.id in getattr(self, "_flagvars", {}):
+                    m_true = st.env[self._flagvars[t.id]].trues
                     if len(m_true.t) == 1:
                         new_sym = next(iter(m_true.t))
                 else:
